@@ -9,9 +9,10 @@ Model of the three places that maintain a NodePool's `NodeRegistrationHealthy` c
 
 as they are, over the tracker model of `Karp.Model.Ring`.  Core Lean only.
 
-Modelled, not verified: the status patches succeed; the NodePool copy handed to a controller is
-up to date; a NodePool / NodeClass edit is followed by the registrationhealth reconcile before the
-next launch outcome of the pool is recorded (one event = edit + reconcile), likewise a restart.
+Modelled, not verified: at most one NodePool call fails per event and the retry follows at once; the
+NodePool copy handed to a controller is up to date; a NodePool / NodeClass edit is followed by the
+registrationhealth reconcile before the next launch outcome of the pool is recorded (one event = edit
++ reconcile), likewise a restart.
 -/
 import Karp.Model.Ring
 
@@ -80,28 +81,177 @@ def timedOut (p : Pool) : Pool :=
   let r := recordFailure p.cond p.t
   { p with present := p.present || set, cond := r.1, condGen := if set then p.gen else p.condGen, t := r.2 }
 
+/-! ### API faults and retries
+
+The controllers reach the NodePool through two calls that can fail: the `Get` inside the two
+`updateNodePoolRegistrationHealth` functions and the optimistic-lock status `Patch` (all three
+controllers).  A failed call makes the reconciler return an error / `Requeue: true`; controller-runtime
+then hands the object to the controller again.  `Fault` = which call of the event fails (once). -/
+
+inductive Fault
+  | none
+  | get    -- the NodePool `Get` of the lifecycle controller fails
+  | patch  -- the NodePool status `Patch` fails (409 Conflict or 5xx: same control flow up to `Requeue` vs. error)
+deriving Repr, DecidableEq
+
+/-- `Registration.updateNodePoolRegistrationHealth` issues the status patch iff the what-if verdict is
+    Healthy and `SetTrue` changed something (status, or the observed generation) -/
+def patchTrue (p : Pool) : Bool :=
+  (p.t.dryRun true).status = .healthy ∧ ¬ (p.present ∧ p.cond = .true_ ∧ p.condGen = p.gen)
+
+/-- `Liveness.updateNodePoolRegistrationHealth` issues the status patch iff the what-if verdict is
+    Unhealthy and the condition is not False yet -/
+def patchFalse (p : Pool) : Bool :=
+  (p.t.dryRun false).status = .unhealthy ∧ p.cond ≠ Cond.false_
+
+/-- what a registration leaves of the pool when fault `f` is armed (see `registrationStep`: the NodeClaim is
+    marked Registered first, so a failed NodePool call is never made up for) -/
+def registeredF (p : Pool) : Fault → Pool
+  | .none => registered p
+  | .get => p
+  | .patch => if patchTrue p then p else registered p
+
+/-- `registrationhealth.Controller.Reconcile` with an armed fault, then the retry if the patch failed.
+    The patch is issued iff the reset guard holds (otherwise nothing changed: the NodeClass generation is
+    already recorded).  A failed patch leaves the NodePool as it was, but `SetStatus` has already run. -/
+def reconcileF (p : Pool) (f : Fault) : Pool :=
+  if f = .patch ∧ needsReset p then reconcile { p with t := (hydrate p).setStatus .unknown }
+  else reconcile p
+
+/-! ### One NodeClaim under the lifecycle controller
+
+What `Controller.Reconcile` (launch, registration, initialization, liveness — in the order the source
+lists them, `Karp.Gen.Health.lifecycleOrder`) does to the pool's health when it looks at one NodeClaim
+the pool owns. -/
+
+/-- what the model keeps of a NodeClaim -/
+structure Claim where
+  /-- `Launched` is True (false: Unknown — the cloud provider cannot create the instance) -/
+  launched   : Bool
+  /-- `Registered` is True (persisted) -/
+  registered : Bool
+  /-- `metadata.deletionTimestamp` is set -/
+  deleted    : Bool
+deriving Repr, DecidableEq
+
+def Claim.fresh (launched : Bool) : Claim := { launched := launched, registered := false, deleted := false }
+
+/-- the circumstances of one reconcile of a NodeClaim (the environment's choices) -/
+structure Look where
+  /-- a Node with the NodeClaim's provider id exists -/
+  node      : Bool
+  /-- `LaunchTimeout` has passed since `Launched` was last written -/
+  launchDue : Bool
+  /-- `registrationTimeout` has passed since `Registered` went Unknown -/
+  regDue    : Bool
+deriving Repr, DecidableEq
+
+/-- the state threaded through one pass -/
+structure Pass where
+  pool   : Pool
+  claim  : Claim
+  /-- the fault that is still armed -/
+  fault  : Fault
+  /-- a sub-reconciler returned an error / asked for a requeue because a NodePool call failed -/
+  failed : Bool
+deriving Repr, DecidableEq
+
+/-- `Registration.Reconcile`: nothing for a NodeClaim that is Registered already or whose Node is not
+    there (no provider id without a launch); otherwise `Registered = True` is set on the object — and
+    persisted by `Controller.Reconcile` whatever happens next — BEFORE the NodePool is touched. -/
+def registrationStep (l : Look) (s : Pass) : Pass :=
+  if s.claim.registered then s
+  else if !(l.node && s.claim.launched) then s
+  else
+    let c := { s.claim with registered := true }
+    match s.fault with
+    | .get => { s with claim := c, fault := .none, failed := true }
+    | .patch =>
+      if patchTrue s.pool then { s with claim := c, fault := .none, failed := true }
+      else { s with claim := c, pool := registered s.pool }
+    | .none => { s with claim := c, pool := registered s.pool }
+
+/-- `Liveness.Reconcile`: nothing for a Registered NodeClaim; the launch-timeout branch for a NodeClaim
+    that is not Launched (and only that branch), else the registration-timeout branch; in a due branch
+    the failure is recorded and the NodeClaim deleted — unless a NodePool call fails, then the branch
+    returns before recording and before deleting. -/
+def livenessStep (l : Look) (s : Pass) : Pass :=
+  if s.claim.registered then s
+  else if !(if s.claim.launched then l.regDue else l.launchDue) then s
+  else
+    match s.fault with
+    | .get => { s with fault := .none, failed := true }
+    | .patch =>
+      if patchFalse s.pool then { s with fault := .none, failed := true }
+      else { s with pool := timedOut s.pool, claim := { s.claim with deleted := true } }
+    | .none => { s with pool := timedOut s.pool, claim := { s.claim with deleted := true } }
+
+/-- one sub-reconciler; launch and initialization (and anything the model does not know) do not touch
+    the NodePool's health -/
+def subStep (l : Look) (s : Pass) (name : String) : Pass :=
+  if name = "registration" then registrationStep l s
+  else if name = "liveness" then livenessStep l s
+  else s
+
+/-- one pass of `Controller.Reconcile`: a terminating NodeClaim goes to `finalize`, otherwise every
+    sub-reconciler runs, in the order of the source, whatever the earlier ones returned -/
+def pass (l : Look) (s : Pass) : Pass :=
+  if s.claim.deleted then s else Karp.Gen.Health.lifecycleOrder.foldl (subStep l) s
+
+/-- the environment hands the NodeClaim to the controller with fault `f` armed; if a NodePool call
+    failed the controller gets the NodeClaim again (same circumstances, the fault is spent) -/
+def look (l : Look) (f : Fault) (pc : Pool × Claim) : Pool × Claim :=
+  let s1 := pass l { pool := pc.1, claim := pc.2, fault := f, failed := false }
+  let s2 := if s1.failed then pass l { s1 with fault := .none, failed := false } else s1
+  (s2.pool, s2.claim)
+
+def looks (ls : List Look) (pc : Pool × Claim) : Pool × Claim :=
+  ls.foldl (fun pc l => look l .none pc) pc
+
+/-- one launch attempt of the pool: the looks before the decisive one, the decisive one (with the
+    event's fault armed), the looks after it -/
+def attempt (p : Pool) (launched : Bool) (pre : List Look) (final : Look) (f : Fault) (post : List Look) : Pool :=
+  (looks post (look final f (looks pre (p, Claim.fresh launched)))).1
+
+/-- nothing to see yet -/
+def Look.waiting : Look := { node := false, launchDue := false, regDue := false }
+/-- the Node has joined, no timeout has passed -/
+def Look.joined : Look := { node := true, launchDue := false, regDue := false }
+/-- the Node has joined, but every timeout has passed as well -/
+def Look.joinedLate : Look := { node := true, launchDue := true, regDue := true }
+/-- no Node, the launch timeout has passed (for a NodeClaim that could not be launched) -/
+def Look.launchTimeout : Look := { node := false, launchDue := true, regDue := false }
+/-- no Node, every timeout has passed -/
+def Look.allTimeouts : Look := { node := false, launchDue := true, regDue := true }
+
 /-- the events of one pool's life -/
 inductive Ev
-  | success     -- a NodeClaim of the pool registered
-  | failure     -- a NodeClaim of the pool hit the registration / launch timeout
-  | lateFailure -- ONE NodeClaim of the pool that could not be launched, looked at again only after the
-                -- registration timeout has passed as well (the controller was not running in between)
+  | success (f : Fault)      -- a NodeClaim of the pool registered
+  | lateSuccess (f : Fault)  -- its Node joined, but the controller looked only after the registration timeout
+  | slowSuccess (f : Fault)  -- the controller looked twice before the Node joined and twice after registering it
+  | failure (f : Fault)      -- a launched NodeClaim of the pool hit the registration timeout (seen in time or late)
+  | launchFailure (f : Fault) -- a NodeClaim of the pool that could not be launched hit the launch timeout
+  | lateFailure (f : Fault)  -- ONE NodeClaim of the pool that could not be launched, looked at again only after the
+                             -- registration timeout has passed as well (the controller was not running in between)
   | noise       -- anything that is not this pool's: another pool's outcome or edit, a NodeClaim that
                 -- carries the pool's name but is owned by another NodePool object (`!found → return nil`)
-  | poolEdit    -- NodePool spec edited (generation + 1), then reconciled
-  | classEdit   -- NodeClass spec edited (generation + 1), then the pool reconciled
+  | poolEdit (f : Fault)     -- NodePool spec edited (generation + 1), then reconciled
+  | classEdit (f : Fault)    -- NodeClass spec edited (generation + 1), then the pool reconciled
   | restart     -- process restart (a new `State`), then the pool reconciled
   | resync      -- the pool reconciled although nothing changed
 deriving Repr, DecidableEq
 
 def step (p : Pool) : Ev → Pool
-  | .success => registered p
-  | .failure => timedOut p
+  | .success f => attempt p true [] .joined f []
+  | .lateSuccess f => attempt p true [] .joinedLate f []
+  | .slowSuccess f => attempt p true [.waiting, .waiting] .joined f [.joined, .joined]
+  | .failure f => attempt p true [.waiting] .allTimeouts f []
+  | .launchFailure f => attempt p false [.waiting] .launchTimeout f []
   -- `Liveness.Reconcile` returns after the launch-timeout branch: one attempt, one record
-  | .lateFailure => timedOut p
+  | .lateFailure f => attempt p false [.waiting] .allTimeouts f []
   | .noise => p
-  | .poolEdit => reconcile { p with gen := p.gen + 1 }
-  | .classEdit => reconcile { p with classGen := p.classGen + 1 }
+  | .poolEdit f => reconcileF { p with gen := p.gen + 1 } f
+  | .classEdit f => reconcileF { p with classGen := p.classGen + 1 } f
   | .restart => reconcile { p with t := Tracker.new }
   | .resync => reconcile p
 
